@@ -9,7 +9,13 @@
 // structs of those; statements := = op= ++ -- if/else return; expressions:
 // arithmetic, bitwise, shifts, comparisons, && || !, conversions, field access,
 // calls to other translated functions; a `string` parameter is represented by its
-// length (BitVec 64) and only `len(s)` may be applied to it.  Anything else makes the function
+// length (BitVec 64) and only `len(s)` may be applied to it.
+// Also (added for C04, code/opcodes.go): composite literals T{f: v} / T{} of translated struct types;
+// shifts by a constant count (emitted with a Nat literal); parameters whose type is a one-method
+// interface (encoderToN, encoderToD) are passed "already applied" (the result of that method) and
+// call sites apply the concrete type's method; a function containing `panic("const string")`, or
+// calling such a function, is emitted in the `Except String` monad (`throw "msg"`, call sites `(← f x)`).
+// Anything else makes the function
 // UNTRANSLATABLE: the tool prints `UNTRANSLATABLE <func>: <reason>` on stderr,
 // emits no definition for it (so every theorem over it fails to elaborate) and
 // exits 3 after writing the rest.
@@ -128,6 +134,27 @@ type tr struct {
 	spec   *ModSpec
 	known  map[string]bool // translated function names (Lean names)
 	locals map[string]bool
+	// panics: translated functions that contain `panic(...)` (or call such a function); they are
+	// emitted in the `Except String` monad and their call sites use `(← f args)`
+	panics map[string]bool
+	// ifaceParams: parameters of the function being translated whose type is a one-method interface;
+	// they are passed already "applied", i.e. as the result of that method (defunctionalised)
+	ifaceParams map[string]string
+	inExcept    bool
+}
+
+// singleMethodIface returns the method of an interface type with exactly one, argument-less, one-result method.
+func singleMethodIface(ty types.Type) (*types.Func, bool) {
+	it, ok := ty.Underlying().(*types.Interface)
+	if !ok || it.NumMethods() != 1 {
+		return nil, false
+	}
+	m := it.Method(0)
+	sig := m.Type().(*types.Signature)
+	if sig.Params().Len() != 0 || sig.Results().Len() != 1 {
+		return nil, false
+	}
+	return m, true
 }
 
 func (t *tr) leanType(ty types.Type) string {
@@ -136,6 +163,9 @@ func (t *tr) leanType(ty types.Type) string {
 		name := u.Obj().Name()
 		if _, ok := u.Underlying().(*types.Struct); ok {
 			return name
+		}
+		if _, ok := u.Underlying().(*types.Interface); ok {
+			return t.leanType(u.Underlying())
 		}
 		return t.leanType(u.Underlying())
 	case *types.Basic:
@@ -156,6 +186,10 @@ func (t *tr) leanType(ty types.Type) string {
 			// a Go string is represented by its length only (int, >= 0); the only operation
 			// accepted on it is len(s) (see call); anything else is outside the subset
 			return "(BitVec 64)"
+		}
+	case *types.Interface:
+		if m, ok := singleMethodIface(u); ok {
+			return t.leanType(m.Type().(*types.Signature).Results().At(0).Type())
 		}
 	case *types.Tuple:
 		var parts []string
@@ -264,6 +298,9 @@ func (t *tr) expr(e ast.Expr) string {
 				bail("string value %s used other than in len(%s)", x.Name, x.Name)
 			}
 		}
+		if _, ok := t.ifaceParams[x.Name]; ok {
+			bail("interface parameter %s used other than by calling its method", x.Name)
+		}
 		return leanIdent(x.Name)
 	case *ast.SelectorExpr:
 		// field access on a struct value / pointer
@@ -290,13 +327,77 @@ func (t *tr) expr(e ast.Expr) string {
 		return t.binary(x)
 	case *ast.CallExpr:
 		return t.call(x)
+	case *ast.CompositeLit:
+		return t.composite(x)
 	}
 	bail("unsupported expression %T", e)
 	return ""
 }
 
+// composite translates T{f: v, ...} / T{} for a translated struct type (missing fields are zero).
+func (t *tr) composite(x *ast.CompositeLit) string {
+	ty := t.typeOf(x)
+	named, ok := ty.(*types.Named)
+	if !ok {
+		bail("composite literal of unnamed type")
+	}
+	st, ok := named.Underlying().(*types.Struct)
+	if !ok {
+		bail("composite literal of non-struct type %s", ty)
+	}
+	vals := map[string]string{}
+	for i, el := range x.Elts {
+		if kv, ok := el.(*ast.KeyValueExpr); ok {
+			k, ok := kv.Key.(*ast.Ident)
+			if !ok {
+				bail("composite literal key")
+			}
+			vals[k.Name] = t.expr(kv.Value)
+		} else {
+			vals[st.Field(i).Name()] = t.expr(el)
+		}
+	}
+	var parts []string
+	for i := 0; i < st.NumFields(); i++ {
+		f := st.Field(i)
+		v, ok := vals[f.Name()]
+		if !ok {
+			if isBool(f.Type()) {
+				v = "false"
+			} else if w, _, ok := width(f.Type()); ok {
+				v = fmt.Sprintf("0#%d", w)
+			} else {
+				bail("zero value of field %s", f.Name())
+			}
+		}
+		parts = append(parts, fmt.Sprintf("%s := %s", f.Name(), v))
+	}
+	return fmt.Sprintf("({ %s } : %s)", strings.Join(parts, ", "), named.Obj().Name())
+}
+
 func (t *tr) binary(x *ast.BinaryExpr) string {
 	lt := t.typeOf(x.X)
+	if x.Op == token.SHL || x.Op == token.SHR {
+		if tv, ok := t.p.info.Types[x.Y]; ok && tv.Value != nil {
+			if n, exact := constant.Uint64Val(constant.ToInt(tv.Value)); exact {
+				if _, isConst := t.constVal(x); !isConst {
+					// constant shift count (possibly an untyped constant): a plain Nat literal
+					a := t.expr(x.X)
+					_, signed, ok := width(lt)
+					if !ok {
+						bail("unsupported operand type %s", lt)
+					}
+					if x.Op == token.SHL {
+						return fmt.Sprintf("(%s <<< %d)", a, n)
+					}
+					if signed {
+						return fmt.Sprintf("(BitVec.sshiftRight %s %d)", a, n)
+					}
+					return fmt.Sprintf("(%s >>> %d)", a, n)
+				}
+			}
+		}
+	}
 	a, b := t.expr(x.X), t.expr(x.Y)
 	switch x.Op {
 	case token.LAND:
@@ -470,6 +571,15 @@ func (t *tr) call(x *ast.CallExpr) string {
 	case *ast.Ident:
 		name = f.Name
 	case *ast.SelectorExpr:
+		// method call on a one-method-interface parameter: the parameter already IS the result
+		if id, ok := f.X.(*ast.Ident); ok && len(x.Args) == 0 {
+			if m, ok := t.ifaceParams[id.Name]; ok {
+				if m != f.Sel.Name {
+					bail("interface parameter %s used with method %s", id.Name, f.Sel.Name)
+				}
+				return leanIdent(id.Name)
+			}
+		}
 		// method call on a value of a translated struct type
 		recvT := t.typeOf(f.X)
 		if ptr, ok := recvT.(*types.Pointer); ok {
@@ -487,8 +597,39 @@ func (t *tr) call(x *ast.CallExpr) string {
 	if !t.known[name] {
 		bail("call to untranslated function %s", name)
 	}
-	for _, a := range x.Args {
+	var sig *types.Signature
+	if tv, ok := t.p.info.Types[x.Fun]; ok {
+		sig, _ = tv.Type.(*types.Signature)
+	}
+	for i, a := range x.Args {
+		// argument passed to a one-method-interface parameter: apply the method here
+		if sig != nil && i < sig.Params().Len() {
+			if m, ok := singleMethodIface(sig.Params().At(i).Type()); ok {
+				at := t.typeOf(a)
+				if named, ok := at.(*types.Named); ok {
+					if _, isIface := named.Underlying().(*types.Interface); !isIface {
+						mn := named.Obj().Name() + "." + m.Name()
+						if !t.known[mn] {
+							bail("call to untranslated method %s", mn)
+						}
+						args = append(args, fmt.Sprintf("(%s %s)", leanIdent(mn), t.expr(a)))
+						continue
+					}
+				}
+				if id, ok := a.(*ast.Ident); ok && t.ifaceParams[id.Name] == m.Name() {
+					args = append(args, leanIdent(id.Name))
+					continue
+				}
+				bail("unsupported argument for interface parameter")
+			}
+		}
 		args = append(args, t.expr(a))
+	}
+	if t.panics[name] {
+		if !t.inExcept {
+			bail("call to panicking function %s outside the Except monad", name)
+		}
+		return fmt.Sprintf("(← %s %s)", leanIdent(name), strings.Join(args, " "))
 	}
 	return fmt.Sprintf("(%s %s)", leanIdent(name), strings.Join(args, " "))
 }
@@ -607,6 +748,17 @@ func (t *tr) stmt(s ast.Stmt, ind string, sb *strings.Builder) {
 	case *ast.BlockStmt:
 		t.stmts(x.List, ind, sb)
 	case *ast.ExprStmt:
+		if ce, ok := x.X.(*ast.CallExpr); ok {
+			if id, ok := ce.Fun.(*ast.Ident); ok && id.Name == "panic" && len(ce.Args) == 1 {
+				if _, isBuiltin := t.p.info.Uses[id].(*types.Builtin); isBuiltin && t.inExcept {
+					if tv, ok := t.p.info.Types[ce.Args[0]]; ok && tv.Value != nil && tv.Value.Kind() == constant.String {
+						fmt.Fprintf(sb, "%sthrow %s\n", ind, leanString(constant.StringVal(tv.Value)))
+						return
+					}
+					bail("panic with a non-constant argument")
+				}
+			}
+		}
 		bail("expression statement")
 	case *ast.DeclStmt:
 		gd, ok := x.Decl.(*ast.GenDecl)
@@ -650,6 +802,8 @@ func (t *tr) funcDecl(fd *ast.FuncDecl, leanName string) (out string, err error)
 	sig := obj.Type().(*types.Signature)
 	var params []string
 	var muts []string
+	t.ifaceParams = map[string]string{}
+	t.inExcept = t.mayPanic(fd)
 	if recv := sig.Recv(); recv != nil {
 		rt := recv.Type()
 		if ptr, ok := rt.(*types.Pointer); ok {
@@ -662,6 +816,10 @@ func (t *tr) funcDecl(fd *ast.FuncDecl, leanName string) (out string, err error)
 	for i := 0; i < sig.Params().Len(); i++ {
 		p := sig.Params().At(i)
 		params = append(params, fmt.Sprintf("(%s : %s)", leanIdent(p.Name()), t.leanType(p.Type())))
+		if m, ok := singleMethodIface(p.Type()); ok {
+			t.ifaceParams[p.Name()] = m.Name()
+			continue
+		}
 		muts = append(muts, p.Name())
 	}
 	if sig.Results().Len() == 0 {
@@ -678,7 +836,11 @@ func (t *tr) funcDecl(fd *ast.FuncDecl, leanName string) (out string, err error)
 	sum := sha256.Sum256([]byte(src.String()))
 	rel := pos.Filename
 	fmt.Fprintf(&sb, "/-- translated from %s:%d  sha256=%x -/\n", rel, pos.Line, sum[:8])
-	fmt.Fprintf(&sb, "def %s %s : %s := Id.run do\n", leanIdent(leanName), strings.Join(params, " "), t.leanType(sig.Results()))
+	if t.inExcept {
+		fmt.Fprintf(&sb, "def %s %s : Except String %s := do\n", leanIdent(leanName), strings.Join(params, " "), t.leanType(sig.Results()))
+	} else {
+		fmt.Fprintf(&sb, "def %s %s : %s := Id.run do\n", leanIdent(leanName), strings.Join(params, " "), t.leanType(sig.Results()))
+	}
 	for _, m := range muts {
 		if m == "" || m == "_" {
 			continue
@@ -688,6 +850,58 @@ func (t *tr) funcDecl(fd *ast.FuncDecl, leanName string) (out string, err error)
 	t.stmts(fd.Body.List, "  ", &sb)
 	// silence unused-mut warnings is not needed; `let mut` unused is only a linter warning
 	return sb.String(), nil
+}
+
+// mayPanic: the body contains `panic(...)` or calls a translated function that may panic.
+func (t *tr) mayPanic(fd *ast.FuncDecl) bool {
+	found := false
+	ast.Inspect(fd.Body, func(n ast.Node) bool {
+		ce, ok := n.(*ast.CallExpr)
+		if !ok {
+			return true
+		}
+		switch f := ce.Fun.(type) {
+		case *ast.Ident:
+			if _, isBuiltin := t.p.info.Uses[f].(*types.Builtin); isBuiltin && f.Name == "panic" {
+				found = true
+			}
+			if t.panics[f.Name] {
+				found = true
+			}
+		case *ast.SelectorExpr:
+			if tv, ok := t.p.info.Types[f.X]; ok {
+				rt := tv.Type
+				if ptr, ok := rt.(*types.Pointer); ok {
+					rt = ptr.Elem()
+				}
+				if named, ok := rt.(*types.Named); ok && t.panics[named.Obj().Name()+"."+f.Sel.Name] {
+					found = true
+				}
+			}
+		}
+		return true
+	})
+	return found
+}
+
+func leanString(s string) string {
+	var sb strings.Builder
+	sb.WriteByte('"')
+	for _, r := range s {
+		switch {
+		case r == '"' || r == '\\':
+			sb.WriteByte('\\')
+			sb.WriteRune(r)
+		case r == '\n':
+			sb.WriteString("\\n")
+		case r < 32 || r > 126:
+			fmt.Fprintf(&sb, "\\u{%x}", r)
+		default:
+			sb.WriteRune(r)
+		}
+	}
+	sb.WriteByte('"')
+	return sb.String()
 }
 
 func (t *tr) structDecl(name string) (string, error) {
@@ -778,7 +992,7 @@ func main() {
 			fmt.Fprintln(os.Stderr, err)
 			os.Exit(2)
 		}
-		t := &tr{p: p, spec: sp, known: map[string]bool{}}
+		t := &tr{p: p, spec: sp, known: map[string]bool{}, panics: map[string]bool{}}
 		var sb strings.Builder
 		fmt.Fprintf(&sb, "-- GENERATED by /verif/extract/golean from %s/%s — do not edit; rewritten on every check run.\n", *repo, sp.Pkg)
 		fmt.Fprintf(&sb, "import GoluaVerif.Base.F64\nset_option linter.unusedVariables false\nnamespace GoluaVerif.Generated.%s\nopen GoluaVerif\n\n", sp.Module)
@@ -829,6 +1043,9 @@ func main() {
 				continue
 			}
 			t.known[fn] = true
+			if t.inExcept {
+				t.panics[fn] = true
+			}
 			sb.WriteString(s + "\n")
 		}
 		fmt.Fprintf(&sb, "end GoluaVerif.Generated.%s\n", sp.Module)
